@@ -106,11 +106,12 @@ func (d *BaseLeecher) UnregisterPeer(peer string) error {
 	d.Mu.Lock()
 	defer d.Mu.Unlock()
 
+	// remove the peer first, so that the routine below cannot select it as a candidate again
+	delete(d.Peers, peer)
 	if d.callback.OngoingSessionPeer() == peer {
 		d.callback.TerminateSession()
 		d.Routine()
 	}
-	delete(d.Peers, peer)
 	return nil
 }
 
